@@ -92,6 +92,7 @@ class ProjectSettings:
     @sim_start.setter
     def sim_start(self, sim_start):
         self._sim_start = sim_start
+        self.sim_end = self.sim_end  # Call the setter function to change sim_end if it is no longer on the time grid
 
     @sim_end.setter
     def sim_end(self, sim_end):
